@@ -13,6 +13,7 @@ import (
 	"testing"
 
 	"seehuhn.de/go/pdf"
+	"seehuhn.de/go/pdf/font/textextract"
 	"seehuhn.de/go/pdf/graphics/extract"
 	gen "seehuhn.de/go/pdf/internal/verifgen"
 	kit "seehuhn.de/go/pdf/internal/verifkit"
@@ -115,6 +116,8 @@ func c05WalkReader(r *pdf.Reader, st *c05Stats) {
 							if err == nil && F != nil {
 								for range F.Codes(pdf.String("Hello \x00\x01\xff\xfe world")) {
 								}
+								// loads the embedded font program (Type 1, CFF, TrueType)
+								textextract.GlyphNameMapping(F)
 							}
 						}
 					}
